@@ -825,12 +825,13 @@ static void plan_c08(void)
         gbuf_free(&c08_buf);
         /* unknown descriptors */
         int dead[] = { 0, -1, desc, INT_MAX, INT_MIN, desc + 1000 };
-        for (int q = 0; q < 6; q++) if (vh_case_begin("unknown-desc%d", dead[q])) {
+        static const int ulen[] = { 100, 0, 1, -1, INT_MAX };
+        for (int q = 0; q < 6; q++) for (int li = 0; li < 5; li++) if (vh_case_begin("unknown-desc%d/len%d", dead[q], ulen[li])) {
             vh_nontrivial(); vh_transitions(3);
-            vh_op("liberasurecode_get_fragment_size"); int r1 = liberasurecode_get_fragment_size(dead[q], 100);
-            vh_op("liberasurecode_get_aligned_data_size"); int r2 = liberasurecode_get_aligned_data_size(dead[q], 100);
+            vh_op("liberasurecode_get_fragment_size"); int r1 = liberasurecode_get_fragment_size(dead[q], ulen[li]);
+            vh_op("liberasurecode_get_aligned_data_size"); int r2 = liberasurecode_get_aligned_data_size(dead[q], (uint64_t)(int64_t)ulen[li]);
             vh_op("liberasurecode_get_minimum_encode_size"); int r3 = liberasurecode_get_minimum_encode_size(dead[q]);
-            if (r1 >= 0 || r2 >= 0 || r3 >= 0) vh_violation("unknown-descriptor-accepted", "size queries on descriptor %d returned %d %d %d", dead[q], r1, r2, r3);
+            if (r1 >= 0 || r2 >= 0 || r3 >= 0) vh_violation("unknown-descriptor-accepted", "size queries (length %d) on descriptor %d returned %d %d %d", ulen[li], dead[q], r1, r2, r3);
         }
         vh_group_end();
     }
@@ -892,10 +893,12 @@ static void plan_c16s(void)
      * its cleanup call, reconstruct of every missing index - the ledger must come back to where it was after every single case */
     struct plan pl; memset(&pl, 0, sizeof pl);
     pl.prop = "C16"; pl.strict = 0; pl.tmax_mode = 2; pl.do_decode = 1; pl.do_recon_missing = 1; pl.pres_mode = 1; pl.check_ledger = 1;
+    int all_n = (int)vh_opt("recon_all_n", thorough ? 10 : 7);      /* up to this n every destination is rebuilt, present ones included */
     pl.ex_n = (int)vh_opt("ex_n", thorough ? 11 : 8);
     for (int i = 0; i < ns; i++) {
         uint64_t a = (uint64_t)sh[i].k * word_bytes(sh[i].be);
         struct plan p2 = pl; if (is_xor(sh[i].be)) p2.ex_n = 32;
+        if (sh[i].k + sh[i].m <= all_n) { p2.do_recon_all = 1; p2.do_recon_missing = 0; }
         explore_stripe(&p2, sh[i], CHKSUM_CRC32, 2 * a + 3, PAT_RAMP, NULL, -1, -1);
     }
     for (int i = 0; i < ns; i++) {
